@@ -127,6 +127,15 @@ class PG:
                 return f"d({self.uid()})"
             return f"d({self.uid()}) and {self.atom()}"
         c = self.r.random()
+        if self.c.empty_arms and self.r.random() < 0.3:
+            # call-free tests that raise for some arguments (division by zero,
+            # subscript of an int): a dropped test is then observable
+            return self.r.choice([
+                f"1 // {self.r.choice(self.names())}",
+                f"{self.r.choice(self.names())} % {self.r.choice(self.names())}",
+                f"{self.r.choice(['a', 'b'])}[0]",
+                f"x // {self.r.choice(['a', 'b'])} == 1",
+            ])
         if t == "expr":
             if c < 0.15:
                 return self.exotic()
